@@ -168,8 +168,11 @@ def gen_config(rw, N, *, backends=("numba",), allow_custom=True, allow_band=True
         cfg["custom_plan"] = gen_custom_plan(rw, N, cfg["fs"])
         cfg["Lmin"] = 1
     elif allow_force and rw.random() < 0.1:
+        # the Jdes search starts at Jdes=100, so only bin counts between nf(Jdes=100) and N/2-1 are reachable
         cfg["force_target_nf"] = True
-        cfg["Jdes"] = rw.choice([3, 4, 6, 9])
+        cfg["Jdes"] = rw.randrange(max(2, int(0.75 * (N // 2))), max(3, N // 2))
+        cfg["bmin"] = 1.0
+        cfg["Lmin"] = 1
     if allow_band and rw.random() < 0.25:
         fs = cfg["fs"]
         lo = rw.uniform(0.0, 0.3) * fs
